@@ -155,8 +155,26 @@ def D7():
         c.close(); shutil.rmtree(d)
 
 
+def D8():
+    """delete_objects with a repeated key whose object has a stray duplicate file raises FileNotFoundError half-way."""
+    d, c = fresh()
+    try:
+        k = c.add_objects_to_pack([b'packed'])[0]
+        k2 = c.add_object(b'other')
+        # the state ObjectWriter._store_duplicate_copy leaves behind on Windows
+        with open(os.path.join(d, 'duplicates', f'{k}.{"0" * 32}'), 'wb') as fh:
+            fh.write(b'packed')
+        try:
+            r = c.delete_objects([k, k2, k])
+            return sorted(r) != sorted([k, k2]), f'returned {len(r)} keys'
+        except FileNotFoundError as exc:
+            return True, f'raised FileNotFoundError; objects left: {c.count_objects()}'
+    finally:
+        c.close(); shutil.rmtree(d)
+
+
 if __name__ == '__main__':
-    which = sys.argv[1:] or ['D1', 'D2', 'D3', 'D4', 'D5', 'D6', 'D7']
+    which = sys.argv[1:] or ['D1', 'D2', 'D3', 'D4', 'D5', 'D6', 'D7', 'D8']
     present = 0
     for name in which:
         bad, msg = globals()[name]()
